@@ -320,6 +320,13 @@ impl VideoState {
         object_line = object_height - object_line - 1;
       }
 
+      // 8x16 objects ignore bit 0 of the tile index: rows 0-7 come from tile
+      // (index & 0xfe), rows 8-15 from tile (index | 1)
+      let tile_index = if self.object_double_height {
+        tile_index & 0xfe
+      } else {
+        tile_index
+      };
       let row_data = self.get_object_row(video_ram, tile_index, object_line as usize, flip_x);
 
       objects_found.push(
